@@ -16,12 +16,21 @@ import (
 	"verifharness/world"
 )
 
+// longFormOf: every eighth case of a workload has a client that writes the 3-byte Length form (for all
+// datagrams / all but CONNECT / DISCONNECT only, in turn).
+func longFormOf(i int) int {
+	if i%8 != 5 {
+		return 0
+	}
+	return 1 + (i/8)%3
+}
+
 // wlSleep: sleep/wake cycles with broker traffic at chosen instants (lock-step).
 var wlSleep = Workload{
 	Name: "sleep",
 	N:    func(r *rt.Run) int { return r.N(1200, 24000) },
 	Run: func(t *testing.T, c *rt.Case, i int, rng *rand.Rand) *GWRun {
-		return runScript(t, c, world.GWConfig{Predefined: stdPredefined(), RetryCount: 1}, world.BrokerCfg{FirstID: 30000}, PeerOpts{}, sleepScript(c.I, rng), 2*time.Second, nil)
+		return runScript(t, c, world.GWConfig{Predefined: stdPredefined(), RetryCount: 1}, world.BrokerCfg{FirstID: 30000}, PeerOpts{LongForm: longFormOf(i)}, sleepScript(c.I, rng), 2*time.Second, nil)
 	},
 }
 
@@ -250,7 +259,9 @@ var wlTermination = Workload{
 		h := baseHistories()[tc.h]
 		steps := append([]Step{}, h.steps[:tc.cut]...)
 		steps = append(steps, causeSteps(tc.cause)...)
-		g := runScript(t, c, h.cfg, h.bcfg, h.po, steps, 130*time.Second, nil)
+		po := h.po
+		po.LongForm = longFormOf(i)
+		g := runScript(t, c, h.cfg, h.bcfg, po, steps, 130*time.Second, nil)
 		g.Desc = fmt.Sprintf("%s/cut=%d/%s", h.name, tc.cut, tc.cause)
 		g.Extra = map[string]interface{}{"cause": tc.cause, "history": h.name, "cut": tc.cut}
 		return g
